@@ -214,9 +214,8 @@ Fixpoint parse_digits (acc : N) (bs : bytes) : option N :=
 Definition parse_usize (bs : bytes) : option N :=
   match bs with
   | [] => None
-  | [43] => None
-  | 43 :: r => parse_digits 0 r
-  | _ => parse_digits 0 bs
+  | b :: r => if b =? 43 then (match r with [] => None | _ => parse_digits 0 r end)
+              else parse_digits 0 bs
   end.
 
 (** stable sort by [Reverse(freq)] ([sort_by_key]) *)
@@ -234,7 +233,10 @@ Definition save (order : dict) : bytes := flat_map save_line (sort_desc order).
 (** [BufRead::lines]: split on LF, drop one CR before the LF, a final
     unterminated non-empty piece is a line *)
 Definition strip_cr (rl : bytes) : bytes :=   (* on the reversed line *)
-  match rl with 13 :: r => rev r | _ => rev rl end.
+  match rl with
+  | [] => []
+  | x :: r => if x =? 13 then rev r else rev rl
+  end.
 Fixpoint lines_aux (cur_rev : bytes) (bs : bytes) : list bytes :=
   match bs with
   | [] => match cur_rev with [] => [] | _ => [rev cur_rev] end
@@ -525,6 +527,13 @@ Definition check_closest (segs : list (list bytes)) (d : dict) (q : query) (a : 
     end
   end.
 
+(** well-formedness of an input: the segmentation oracle covers every key of the dictionary file *)
+Definition segs_cover (v : val) : bool :=
+  match load (in_dfile v) with
+  | Some d => forallb (fun e : word * N => match seg_of (in_segs v) (fst e) with Some _ => true | None => false end) d
+  | None => true
+  end.
+
 Definition check_C20 (v out : val) : bool :=
   match out with
   | L [L creates; reload; loaded; L answers] =>
@@ -540,7 +549,7 @@ Definition check_C20 (v out : val) : bool :=
         | [], L [] => true
         | L [I 0%Z; items; I fs] :: _, L [L _; lr] =>
           let d := v_items items in
-          if forallb key_ok (map fst d) then
+          if forallb key_ok (map fst d) && forallb (fun e : word * N => snd e <=? usize_max) d then
             match v_lres lr with
             | Some (d', fs') => same_dict d d' && (fs =? fs')%Z
             | None => false
